@@ -82,6 +82,15 @@ var vcfgEntries = map[string]vcfgEntry{
 	"out": {"", "8.8.8.8"}, "lo": {"", "127.0.0.1"},
 }
 
+// further addresses inside the same entries, for machines whose interfaces cover the default probe
+var vcfgAltProbes = map[string][]string{
+	"c198": {"198.51.100.201", "198.51.100.9"}, "cdb8b": {"2001:db8:b:5::1", "2001:db8:b:ffff::9"}, "c100": {"100.99.1.1", "100.127.200.9"},
+	"cws": {"2001:db8:c:5::1", "2001:db8:c:ffff::9"}, "a203": {"203.0.113.201", "203.0.113.9"}, "adb8a": {"2001:db8:a:5::1", "2001:db8:a:ffff::9"},
+	"aws": {"198.19.200.1", "198.18.99.9"}, "p192": {"192.122.190.3", "192.122.190.12"}, "pws": {"2001:48a8:687f:1::b", "2001:48a8:687f:1::ff"},
+	"s10": {"10.200.1.1", "10.77.77.77", "10.1.2.3"}, "s172": {"172.31.200.1", "172.16.5.5", "172.25.0.9"}, "s192": {"192.168.200.9", "192.168.1.77", "192.168.99.1"},
+	"sfc00ws": {"fd77:1:2::3", "fc00:9::1", "fdfe:dcba::1"}, "sfe80": {"fe80:5::1", "fe80:ffff::9"}, "out": {"9.9.9.9", "1.1.1.1"},
+}
+
 var vcfgLists = map[string]map[string][]string{
 	"cbs": {"empty": {}, "A": {"c198", "cdb8b"}, "B": {"c100"}, "ws": {"c198", "cws"}, "bad": {"c198", "cBAD"}},
 	"cas": {"empty": {}, "A": {"a203", "adb8a"}, "ws": {"aws"}, "bad": {"a203", "aBAD"}, "badonly": {"aBAD"}},
@@ -579,18 +588,40 @@ func vcfgSetup(t *testing.T) (*vcfgFiles, func()) {
 	if err != nil {
 		t.Fatal(err)
 	}
-	// probes must not fall into a local interface subnet (covert_blocklist_public_addrs adds those)
+	// probes must not fall into a local interface subnet (covert_blocklist_public_addrs adds those): where the
+	// default probe of an entry does, another address inside the same entry is taken
+	local := []*net.IPNet{}
 	ifaces, _ := net.Interfaces()
 	for _, i := range ifaces {
 		addrs, _ := i.Addrs()
 		for _, a := range addrs {
 			if n, ok := a.(*net.IPNet); ok {
-				for name, e := range vcfgEntries {
-					if e.probe != "" && !vcfgLocalProbes[name] && net.ParseIP(e.probe) != nil && n.Contains(net.ParseIP(e.probe)) {
-						t.Fatalf("probe %s (%s) lies in local interface subnet %v: choose another address", name, e.probe, n)
-					}
-				}
+				local = append(local, n)
 			}
+		}
+	}
+	isLocal := func(ip string) bool {
+		for _, n := range local {
+			if n.Contains(net.ParseIP(ip)) {
+				return true
+			}
+		}
+		return false
+	}
+	for name, e := range vcfgEntries {
+		if e.probe == "" || vcfgLocalProbes[name] || net.ParseIP(e.probe) == nil || !isLocal(e.probe) {
+			continue
+		}
+		found := false
+		for _, alt := range vcfgAltProbes[name] {
+			if !isLocal(alt) {
+				e.probe, found = alt, true
+				vcfgEntries[name] = e
+				break
+			}
+		}
+		if !found {
+			t.Fatalf("every probe address of entry %s lies in a local interface subnet (%v)", name, local)
 		}
 	}
 	// names that no pattern refuses are resolved: fail fast and offline (/etc/hosts still answers localhost)
